@@ -316,43 +316,27 @@ def _first_written(idx, folder, path, qual):
 
 
 def markers(ctx, report, folder):
+    """every writer's real output (the writers are folded on small caption sets; DFXP and SAMI through the BeautifulSoup
+    model) is claimed by its own reader's sniffer first"""
     from . import c20_fold
     idx = ctx.index
     det = {n: idx.find_class(n).find_method("detect") for n in ORDER}
-    ww, wfirst, whead = _first_written(idx, folder, "pycaption/webvtt.py", "WebVTTWriter.write")
-    sw, sfirst, shead = _first_written(idx, folder, "pycaption/scc/__init__.py", "SCCWriter.write")
-    srt = idx.get_function("pycaption/srt.py", "SRTWriter._recreate_lang")
-    srt_index = _srt_first_index(srt)
-    cue = "00:00:01.000 --> 00:00:02.000\nhello\n"
-    documents = {
-        "DFXPWriter": [folder.value("pycaption.dfxp.base", "DFXP_BASE_MARKUP")],
-        "LegacyDFXPWriter": [folder.value("pycaption.dfxp.extras", "LEGACY_DFXP_BASE_MARKUP")],
-        "SAMIWriter": [folder.value("pycaption.sami", "SAMI_BASE_MARKUP")],
-        "WebVTTWriter": [whead + cue, whead],
-        "SCCWriter": [shead + "00:00:01:00\t9420 9420 94ae 94ae 9470 9470 c1c2 942f 942f\n\n", shead],
-        "SRTWriter": [f"{srt_index}\n00:00:01,000 --> 00:00:02,000\nhello\n"],
-        "MicroDVDWriter": ["{25}{50}hello\n", "{0}{0}\n"],
-    }
-    if not all(isinstance(d, str) for ds in documents.values() for d in ds):
-        raise AnalysisError("a writer skeleton does not fold to a string")
+    documents, where = c20_fold.writer_documents(ctx)
     sn = c20_fold.run(ctx, report, folder, documents)
-    own = {"DFXPWriter": "DFXPReader", "LegacyDFXPWriter": "DFXPReader", "SAMIWriter": "SAMIReader",
-           "WebVTTWriter": "WebVTTReader", "SCCWriter": "SCCReader", "SRTWriter": "SRTReader",
+    own = {"DFXPWriter": "DFXPReader", "LegacyDFXPWriter": "DFXPReader", "SinglePositioningDFXPWriter": "DFXPReader",
+           "SAMIWriter": "SAMIReader", "WebVTTWriter": "WebVTTReader", "SCCWriter": "SCCReader", "SRTWriter": "SRTReader",
            "MicroDVDWriter": "MicroDVDReader"}
-    where = {"WebVTTWriter": ww, "SCCWriter": sw, "SRTWriter": srt}
     for w, r in own.items():
-        site = where.get(w) or (idx.find_class(w).module.path, w)
+        site = where[w]
         acc = [sn.accepts(r, d) for d in documents[w]]
         report.check(all(a is True for a in acc), "R-MARKER", site,
-                     f"{r}.detect accepts the document skeleton {w} starts from",
-                     {"skeleton": [d[:60] for d in documents[w]], "accepted": [a if isinstance(a, bool) else list(a) for a in acc]}, "3")
+                     f"{r}.detect accepts the documents {w} writes",
+                     {"documents": [d[:60] for d in documents[w]], "accepted": [a if isinstance(a, bool) else list(a) for a in acc]}, "3")
         for earlier in ORDER[:ORDER.index(r)]:
             hit = [d[:60] for d in documents[w] if sn.accepts(earlier, d) is True]
             report.check(not hit, "R-MARKER-EXCLUSION", site,
-                         f"{earlier}.detect (probed earlier) does not accept {w}'s skeleton", {"accepted": hit} if hit else None, "3")
+                         f"{earlier}.detect (probed earlier) does not accept {w}'s documents", {"accepted": hit} if hit else None, "3")
     c20_fold.own_output(ctx, report, sn)
-    report.check(srt_index == 1, "R-MARKER", srt, "SRT output starts with the index line '1' followed by an arrow line",
-                 {"first_index": srt_index}, "3")
     # MicroDVD: language of a written line <= sniffer
     md = det["MicroDVDReader"]
     uses = [u for u in regex_uses(md, folder) if u.method in ("match", "search", "fullmatch")]
